@@ -333,10 +333,16 @@ def check_C03(ctx):
 
 def check_C04(ctx):
     engine_check(ctx, "C04", has_call("create", "pods"), 4)
+    check_C04_history(ctx)
 
 
 def check_C05(ctx):
     engine_check(ctx, "C05", lambda r: r["sn"]["set"][4] != "Parallel" and len(r["calls"]) > 1, 5)
+
+
+def check_C04_history(ctx):
+    # histories: slots edited without a spec change (no new generation), pods lost afterwards - no create in a listed slot
+    cluster_check(ctx, ["B_C02"], ["P_C04"], invariants=[], properties=["Converges"], scale=0.6)
 
 
 def check_C07(ctx):
@@ -474,6 +480,8 @@ def check_C08(ctx):
     ctx.design("MCHistory", hist_cfg(3, ["asc"] if q else ["asc", "desc", "ties"], [0, 3], [0, 1], ["I_C08"]), "history-3revs")
     sh1, _ = snap_trace(ctx, "history", "history", 2, 2, 5, 50000 if q else 800000, ["P_C08"], 80)
     ctx.add_samples(sh1, 2, has_call("update", "controllerrevisions"))
+    # the same with API failures on the revision writes (a rollback's renumbering that fails must not end in success)
+    snap_trace(ctx, "faults-history", "faults-history", 2, 2, 5, 30000 if q else 500000, ["P_C08"], 81)
     # history part: edits of replicas / slots / pause never change the update revision, rollbacks reuse revisions
     cluster_check(ctx, ["B_C08"], ["P_C08"], invariants=[], properties=["NoRestartOnScale"], scale=0.7)
     ctx.assumptions.append("the clause 'recorded data applied to the set reproduces the template exactly' is evaluated by the harness on "
@@ -825,6 +833,9 @@ def check_C01(ctx):
     ctx.add_samples(shards, 2, lambda r: r["ctl"] and len(r["want"]) > 1 and r["r"] > 1)
     ctx.add_samples(shards, 1, lambda r: r["cls"] == "malformed")
     ctx.assumptions.append("int32 extremes and arbitrary int32 slot sets are sampled (seeded), small ranges are enumerated completely")
+    # over histories: an edit of nothing but the delete-slots annotation reaches the controller (work queue only, no resync)
+    # and the pods end up at exactly the desired ordinals
+    cluster_check(ctx, ["B_C02", "B_C16"], ["P_C03", "P_C04"], invariants=[], properties=["Converges"], scale=0.5, queue=True)
 
 
 CHECKS = {
